@@ -79,7 +79,7 @@ def from_description(d):
 def run_case(k, cuda=False, **over):
     return wc.run_wavesim(k.c, over.get('delays', k.delays), over.get('sims', k.sims), over.get('caps', k.caps),
                           over.get('reuse', k.reuse), over.get('strip', k.strip), k.s0, k.s1, k.s2, k.extra, k.tcap,
-                          a_ctrl=k.a_ctrl, cuda=cuda, warm=over.get('warm'), repickle=over.get('repickle'))
+                          a_ctrl=k.a_ctrl, cuda=cuda, warm=over.get('warm'), repickle=over.get('repickle'), prop_sims=over.get('prop_sims'))
 
 
 def warm_round(rng, k):
@@ -88,20 +88,22 @@ def warm_round(rng, k):
     return wc.gen_stimulus(rng, k.c, k.sims, tmax=30, extra_prob=0.8, max_trans=rng.choice([3, 3, 2]), busy=True)
 
 
-def same_as_fresh(k, w, w2):
+def same_as_fresh(k, w, w2, lanes=None):
     """a round on a USED simulator (w2, after warm_round) must give what the fresh simulator (w) gives: every capture result, every
-    tracked waveform up to its terminator, and the accumulator increments -> None | text"""
-    a, b = np.asarray(w.s)[3:11], np.asarray(w2.s)[3:11]
+    tracked waveform up to its terminator, and the accumulator increments -> None | text.  lanes: the round on w2 was restricted to the
+    first `lanes` lanes (c_prop(sims=lanes)); only those are compared."""
+    nl = k.sims if lanes is None else lanes
+    a, b = np.asarray(w.s)[3:11, :, :nl], np.asarray(w2.s)[3:11, :, :nl]
     if not np.array_equal(a, b, equal_nan=True):
         i = np.argwhere(~((a == b) | (np.isnan(a) & np.isnan(b))))[0]
         return f'capture result s[{3 + int(i[0])}] of s_node {int(i[1])}, lane {int(i[2])} is {b[tuple(i)]} on a used simulator, {a[tuple(i)]} on a fresh one'
     nidx = len(k.c.lines) if not k.reuse else 0
     for idx in list(range(nidx)) + [int(w.ppi_offset) + p for p in range(len(k.c.s_nodes))]:
-        for lane in range(k.sims):
+        for lane in range(nl):
             x, y = wo.waveform(w, idx, lane), wo.waveform(w2, idx, lane)
             if x != y:
                 return f'waveform of signal {idx}, lane {lane} is {y} on a used simulator, {x} on a fresh one'
-    if w.abuf_len > 0:
+    if w.abuf_len > 0 and lanes is None:
         d = np.asarray(w2.abuf) - (w2.abuf_warm if w2.abuf_warm is not None else 0)
         if not np.array_equal(d, np.asarray(w.abuf)):
             return f'accumulated activity of the round on a used simulator is {d.tolist()}, on a fresh one {np.asarray(w.abuf).tolist()}'
@@ -140,7 +142,8 @@ def warm_replay(d):
     warm = (np.array(wr['s0'], dtype=np.float32), np.array(wr['s1'], dtype=np.float32), np.array(wr['s2'], dtype=np.float32),
             {(p, l): wf for p, l, wf in wr['extra']})
     try:
-        return same_as_fresh(k, run_case(k), run_case(k, warm=warm)) is not None
+        j = wr.get('first_lanes')
+        return same_as_fresh(k, run_case(k), run_case(k, warm=warm, prop_sims=j), lanes=j) is not None
     except Exception:
         return True
 
@@ -178,15 +181,17 @@ def campaign(ck, n, oracle, gen_kw=None, coq_lanes=1, label='WaveSim', coq_every
         if i % 3 == 1:
             # the same round on a simulator object that has already simulated another batch
             wr = warm_round(rng, k)
+            # half of these rounds restricted to the first j lanes (c_prop(sims=j)): those lanes must still get their results
+            j = rng.randint(1, k.sims) if (k.sims > 1 and rng.random() < 0.5) else None
             try:
-                what = same_as_fresh(k, w, run_case(k, warm=wr))
+                what = same_as_fresh(k, w, run_case(k, warm=wr, prop_sims=j), lanes=j)
             except Exception:
                 what = 'raises on a used simulator ' + traceback.format_exc()[-400:]
-            ck.count(k.sims, 'used-simulator rounds')
+            ck.count(k.sims, 'used-simulator rounds' + (' (first lanes only)' if j else ''))
             if what:
                 d = describe(k)
-                d['warm_round'] = {'s0': wr[0].tolist(), 's1': wr[1].tolist(), 's2': wr[2].tolist(), 'extra': [[p, l, wf] for (p, l), wf in wr[3].items()]}
-                fails.append((d, 'simulator reuse: ' + what))
+                d['warm_round'] = {'s0': wr[0].tolist(), 's1': wr[1].tolist(), 's2': wr[2].tolist(), 'extra': [[p, l, wf] for (p, l), wf in wr[3].items()], 'first_lanes': j}
+                fails.append((d, 'simulator reuse' + (f', c_prop(sims={j})' if j else '') + ': ' + what))
         if i % 5 == 4:
             # the same round on simulators that went through a pickle round trip / a deep copy after assignment (CPU and GPU-kernel class):
             # the property's oracle must hold for them and their results must equal the original's
